@@ -16,7 +16,7 @@ CHECKS = {
         'num-bigint byte conversions and uuid text are modelled and validated, not verified; '
         'HashMap iteration order is a parameter (the value term lists entries in iteration order)',
    technique='Coq proof by induction on encoder fuel + differential correspondence (extracted model vs Rust)',
-   design='DESIGN.md 6/C01'),
+   design='DESIGN.md 5/C01'),
  'C12': dict(
    text='Theorem (Coq, every byte string): the table-driven 64-bit Rabin fingerprint of rabin.rs equals '
         'CRC-64-AVRO defined bit by bit from the polynomial (C12_rabin_is_crc64), digest bytes little-endian. '
@@ -32,7 +32,7 @@ CHECKS = {
    note='MD5 and SHA-256 are not modelled (hashlib is the reference); the general theorem canonical_form s = '
         'spec_canonical_form s for all attribute-free, logical-type-free schemas is not proved, only checked',
    technique='Coq proof (bit-level linearity of the CRC step; vm_compute witnesses for the canonical form) + executable specification as differential oracle',
-   design='DESIGN.md 6/C12'),
+   design='DESIGN.md 5/C12'),
  'C15': dict(
    text='PARTIAL by proof: the compression algorithms (miniz_oxide, snap, bzip2, liblzma, zstd, crc32fast) are external libraries '
         'that no model here covers; they appear as Section variables of Model/CodecFrame.v. Proved, for every payload and every '
@@ -49,7 +49,7 @@ CHECKS = {
    note='zstandard has no independent decoder in this sandbox: round trip and frame magic only. The round-trip law of each '
         'compression library is an assumption of the theorems, validated by testing, not a theorem.',
    technique='Coq proof of the framing / checksum / output-cap code with the compression libraries as Section variables; reference-codec differential check for the library laws',
-   design='DESIGN.md 6/C15'),
+   design='DESIGN.md 5/C15'),
  'C16': dict(
    category='other',
    text='PARTIAL, and mostly NOT by proof: the serde machinery (ser_schema / deser_schema, about 4000 lines of trait '
@@ -65,7 +65,7 @@ CHECKS = {
    note='honest level: differential testing with a proved decoder as oracle; the corpus is finite (no tuples / fixed arrays / '
         'BTreeMap: the derive macro rejects them at compile time) and values come from a PRNG inside the harness',
    technique='Coq theorems for the byte-level contract only; corpus-based differential check of the serde paths against the extracted decoder',
-   design='DESIGN.md 6/C16'),
+   design='DESIGN.md 5/C16'),
  'C17': dict(
    category='other',
    text='PARTIAL, and mostly NOT by proof: the derive macro and the serde implementations are not modelled. Decided with the proof '
@@ -80,7 +80,7 @@ CHECKS = {
    note='honest level: corpus testing; flatten / transparent / tuple fields are not in the corpus (tuples are rejected by the derive '
         'macro at compile time)',
    technique='C11 theorems applied to the derived JSON through the extracted parser; corpus-based round-trip check of derived types',
-   design='DESIGN.md 6/C17'),
+   design='DESIGN.md 5/C17'),
  'C18': dict(
    text='Theorems (Coq): header = C3 01 ++ LE CRC-64-AVRO (10 bytes); for EVERY history of writes through one '
         'writer (good values, rejected values, encode failures, failing sinks) the reusable buffer is the header '
@@ -93,7 +93,7 @@ CHECKS = {
         '(Specific*) writer is covered by the C07/C16 harness types, not here; union search in validation is not '
         'modelled yet (histories avoid bare values in union positions)',
    technique='Coq proof (invariant over operation histories) + differential correspondence',
-   design='DESIGN.md 6/C18'),
+   design='DESIGN.md 5/C18'),
  'C03': dict(
    text='Theorems (Coq): for EVERY history of writer operations (appends, rejected appends, appends whose '
         'encoding fails, flushes, add_user_metadata, reset), every block size and every codec with total '
@@ -109,7 +109,7 @@ CHECKS = {
         'the header is compared semantically; F19 (embedded schema of null-namespace nested types) is a '
         'known finding',
    technique='Coq proof (invariant + refinement over operation histories) + differential correspondence',
-   design='DESIGN.md 6/C03'),
+   design='DESIGN.md 5/C03'),
  'C14': dict(
    text='Theorems (Coq): for ANY list of spec-conforming blocks (any codec inverse, any item decoder, counts of '
         'any varint length, zero- or variable-width items) and ANY cut offset into the block section, reading '
@@ -121,7 +121,7 @@ CHECKS = {
    note='cuts inside the header are covered by the exhaustive sweep and the model correspondence; the theorem '
         'for header cuts (strict prefix of the metadata map never decodes) is not yet proved in Coq',
    technique='Coq proof (induction over blocks, varint prefix law) + exhaustive damage sweep',
-   design='DESIGN.md 6/C14'),
+   design='DESIGN.md 5/C14'),
  'C06': dict(
    text='Theorems (Coq, every schema / byte string / fuel): whenever the model decoder succeeds the value has '
         'the canonical shape of the schema and a prefix of the input was consumed (C06_decoded_conforms, by '
@@ -138,7 +138,7 @@ CHECKS = {
         'limit). Decoder agreement is not compared for uuid / big-decimal payload content (an untyped serde '
         'target cannot check it). The serde deserializer itself is not modelled yet (C16).',
    technique='Coq proof (induction over the decoder; prefix law) + exhaustive-short / mutation differential check',
-   design='DESIGN.md 6/C06'),
+   design='DESIGN.md 5/C06'),
  'C13': dict(
    text='Theorems (Coq): for EVERY sink script (any accepted length per call, a failure or Interrupted at any '
         'call index) write_all delivers the whole buffer or reports an error after a strict prefix '
@@ -154,7 +154,7 @@ CHECKS = {
         'the instrumented sink) that every write site uses write_all; which pieces a writer issues is observed, '
         'not modelled. A fault during Drop is not reportable by design and not counted.',
    technique='Coq proof (induction over buffer + script) + fault-injection sweep with model-predicted outcomes',
-   design='DESIGN.md 6/C13'),
+   design='DESIGN.md 5/C13'),
  'C19': dict(
    text='Theorems (Coq): for EVERY schedule of set / get-or-init operations on a write-once cell (any number of '
         'threads, any interleaving linearised at OnceLock granularity) the first operation fixes the value for '
@@ -168,7 +168,7 @@ CHECKS = {
         'interleavings are only sampled by repeated processes; limits above 2^24 are observed only through the '
         'returned value (probing a declared length really allocates it)',
    technique='Coq proof (induction over schedules) + racing-threads differential check with linearisation search',
-   design='DESIGN.md 6/C19'),
+   design='DESIGN.md 5/C19'),
  'C02': dict(
    text='Theorems (Coq): Spec/BinEnc.v is the Avro binary encoding as an inductive RELATION transcribed from the '
         'specification (zig-zag varints as a relation, blocks with positive or negative counts and byte sizes, '
@@ -183,7 +183,7 @@ CHECKS = {
         'block writer (target_block_size) is checked under C16. The decoder is laxer than the relation '
         '(over-long varints, ignored byte sizes): not part of the statement.',
    technique='Coq proof (inductive specification relation; inversion + induction on fuel) + certified-layout differential check',
-   design='DESIGN.md 6/C02'),
+   design='DESIGN.md 5/C02'),
  'C04': dict(
    text='Theorems (Coq): for EVERY partition of the item encodings into non-empty blocks, every codec with decompress o compress '
         '= id and every marker, the reader yields exactly the values in order and ends cleanly (C04_body_any_partition); the '
@@ -199,7 +199,7 @@ CHECKS = {
    note='codec libraries are outside the model (Section hypothesis decompress (compress x) = x; C15 checks it); zstandard has no '
         'independent decoder here: for it only the container structure and block counts are checked in the writing direction',
    technique='Coq proof (induction over blocks; C02 specification relation for the header) + independent reader/writer differential check',
-   design='DESIGN.md 6/C04'),
+   design='DESIGN.md 5/C04'),
  'C05': dict(
    text='PARTIAL by proof: the theorems carry what is logic - the datum decoder model (the one C01/C02/C06 tie to decode.rs) is a '
         'total function that never takes a panic branch for ANY schema, name table, limit and byte string (C05_decode_never_panics, '
@@ -217,7 +217,7 @@ CHECKS = {
         'the bzip2 (block state <= 3.6 MB) and zstd (128 KiB input buffer) decoders is not counted as memory for a declared length; '
         'liblzma and zstd allocate through malloc, which the counting allocator does not see.',
    technique='Coq proof (panic-freedom and allocation guards of the decoder model) + counting-allocator and time-limit sweep of all entry points',
-   design='DESIGN.md 6/C05'),
+   design='DESIGN.md 5/C05'),
  'C07': dict(
    text='Theorems (Coq): a value validation rejects is written by none of the validating paths - datum writer '
         'errs before encoding, single-object writer emits nothing and keeps its buffer, container writer state '
@@ -234,7 +234,7 @@ CHECKS = {
         'by the correspondence only; nine known-finding classes F2,F4,F5,F6,F33,F34,F35,F37,F38 stay open '
         '(validation and encoder are two independent match tables; repairing them is not a small change)',
    technique='Coq proof (definitional lemmas, leaf table, refutation witnesses) + mutation-based differential check',
-   design='DESIGN.md 6/C07'),
+   design='DESIGN.md 5/C07'),
  'C08': dict(
    text='Executable resolution specification in Coq (Spec/Resolution.v: spec_read, written from the specification text, '
         'independent of resolve_*) and a model of Value::resolve / UnionSchema::find_schema / record defaults '
@@ -255,7 +255,7 @@ CHECKS = {
         'property\'s own idempotence clause) - see DESIGN.md; idempotence and result-validates are proved for leaves '
         'only, checked by the correspondence for containers and unions',
    technique='Coq executable specification + theorems on the resolve model + refutation witnesses; differential check against the extracted specification',
-   design='DESIGN.md 6/C08'),
+   design='DESIGN.md 5/C08'),
  'C09': dict(
    text='Model of SchemaCompatibility::can_read / mutual_read (Model/Compat.v). Theorems: every schema with unique field '
         'names is fully compatible with itself (C09_reflexive, induction on fuel through unions, records, enums, references); '
@@ -269,7 +269,7 @@ CHECKS = {
    note='the pointer-keyed memo of the checker is not modelled (it replays the result of a deterministic function of the '
         'pair); recursion-cache effects are covered by the correspondence on recursive generated schemas only',
    technique='Coq proof (induction on fuel over the can_read model) + refutation witnesses; differential check of verdicts against actual reads',
-   design='DESIGN.md 6/C09'),
+   design='DESIGN.md 5/C09'),
  'C10': dict(
    text='Models of the hand-written Serialize impls and of serde_json::to_value (Model/SchemaJson.v) and of the parser '
         '(Model/Parser.v). Theorems: the serialised schema repeats no key in any object, for every schema whose custom '
@@ -283,7 +283,7 @@ CHECKS = {
    note='the general round-trip theorem parse (ser s) = s for all parser-produced schemas is NOT proved (the default check '
         'depends on the table of names parsed so far); it is checked by the correspondence. The header embedding is C03\'s check.',
    technique='Coq proof (nested induction over schemas, name grammar lemmas, vm_compute witnesses) + differential check of serialiser and parser models',
-   design='DESIGN.md 6/C10'),
+   design='DESIGN.md 5/C10'),
  'C11': dict(
    text='Model of Schema::parse_str over the serde_json value (Model/Parser.v: Name::new / Name::parse and the four grammars, '
         'the resolving / parsed tables, RecordField::parse with the default check by resolution, UnionSchemaBuilder::variant, '
@@ -299,7 +299,7 @@ CHECKS = {
    note='three panics repaired (F48, F50 canonical form on attributes named like schema keys - also reachable from parse_str; '
         'F15 earlier); JSON text -> serde_json::Value is outside the model (trusted: serde_json)',
    technique='Coq proof (lemmas on the parser model\'s components) + refutation witnesses; differential check of the parser model on mutated and arbitrary texts',
-   design='DESIGN.md 6/C11'),
+   design='DESIGN.md 5/C11'),
  'C20': dict(
    text='Model of Schema::parse_list (Model/Parser.v: collect_inputs, drain of the pending HashMap with its iteration order '
         'as a parameter, on-demand parse of referenced inputs in fetch_schema_ref, results collected in input order). '
@@ -315,7 +315,7 @@ CHECKS = {
         '(F25b); the general confluence theorem (outcome independent of hash_order for sets without nested definitions) '
         'is not proved, only checked; identical schemas from every ordering imply identical encodings (C01/C02)',
    technique='Coq proof (lemmas on the parse_list model) + refutation witness; permutation and repeated-run differential check',
-   design='DESIGN.md 6/C20'),
+   design='DESIGN.md 5/C20'),
 }
 NOT_YET = 'check not built yet in this round (work in progress; see DESIGN.md section 6 for the plan)'
 
